@@ -37,12 +37,21 @@ fn check(src: &mut GenerationSource, ent: &str, exhausted: bool, bad: &mut usize
     for n in [0usize, 1, 2, 7, 16, 33] {
         let v = src.gen_bytes(n);
         if v.len() != n { *bad += 1; println!("NATIVE-VIOLATION [C18] gen_bytes({}) has length {} entropy={}", n, v.len(), ent); }
-        if exhausted && v.iter().any(|&b| b != 0) { *bad += 1; println!("NATIVE-VIOLATION [C18] gen_bytes fallback not zero entropy={}", ent); }
+        if exhausted {
+            // fixed fallback: a second exhausted source returns the same bytes (whatever they are)
+            let none: [u8; 0] = [];
+            let mut u2 = Unstructured::new(&none);
+            let v2 = GenerationSource::Arbitrary(&mut u2).gen_bytes(n);
+            if v2 != v { *bad += 1; println!("NATIVE-VIOLATION [C18] gen_bytes fallback is not fixed entropy={}", ent); }
+        }
     }
     if exhausted {
-        let ok = !src.gen_bool() && src.gen_u8() == 0 && src.gen_u16() == 0 && src.gen_u32() == 0 && src.gen_i32() == 0
-            && src.gen_i64() == 0 && src.gen_f64().to_bits() == 0;
-        if !ok { *bad += 1; println!("NATIVE-VIOLATION [C18] exhausted input does not yield the fixed fallbacks entropy={}", ent); }
+        let none: [u8; 0] = [];
+        let mut u2 = Unstructured::new(&none);
+        let mut s2 = GenerationSource::Arbitrary(&mut u2);
+        let ok = src.gen_bool() == s2.gen_bool() && src.gen_u8() == s2.gen_u8() && src.gen_u16() == s2.gen_u16() && src.gen_u32() == s2.gen_u32()
+            && src.gen_i32() == s2.gen_i32() && src.gen_i64() == s2.gen_i64() && src.gen_f64().to_bits() == s2.gen_f64().to_bits();
+        if !ok { *bad += 1; println!("NATIVE-VIOLATION [C18] exhausted input does not yield fixed fallbacks entropy={}", ent); }
     }
 }
 
